@@ -2,8 +2,8 @@ use chrono::Duration;
 use nom::branch::alt;
 use nom::bytes::complete::tag;
 use nom::character::complete::char;
-use nom::combinator::{map, opt};
 use nom::character::complete::digit0;
+use nom::combinator::{map, opt};
 use nom::multi::many1;
 use nom::sequence::preceded;
 use nom::IResult;
@@ -148,8 +148,8 @@ pub fn format_duration(d: &Duration) -> String {
 
     // magnitude in nanoseconds; chrono durations can exceed 64-bit nanoseconds, hence u128
     let neg = *d < Duration::zero();
-    let mut u = d.num_seconds().unsigned_abs() as u128 * SECOND
-        + d.subsec_nanos().unsigned_abs() as u128;
+    let mut u =
+        d.num_seconds().unsigned_abs() as u128 * SECOND + d.subsec_nanos().unsigned_abs() as u128;
 
     if u < SECOND {
         // Special case: if duration is smaller than a second,
